@@ -45,6 +45,7 @@ type M struct {
 	mode    map[string][]string
 	frames  []*frame
 	tokens  int
+	retCtr  int      // invocations of configured functions (every third returns zero values)
 	cbFault []string // things the callbacks themselves found wrong
 }
 
@@ -163,8 +164,16 @@ func (m *M) impl(x string, ft reflect.Type) func([]reflect.Value) []reflect.Valu
 		}
 		d := m.depth
 		results := make([]reflect.Value, ft.NumOut())
+		// what a configured function returns is fresh and distinguishable - except every
+		// third time, when it returns the zero value of every result (nil error, nil
+		// interface, "", 0): a mock must hand those back unchanged too (C03)
+		m.retCtr++
 		for i := range results {
-			results[i] = m.G.Value(ft.Out(i), 0)
+			if m.retCtr%3 == 0 {
+				results[i] = reflect.Zero(ft.Out(i))
+			} else {
+				results[i] = m.G.Value(ft.Out(i), 0)
+			}
 		}
 		m.events = append(m.events, invEvent{Method: x, FPs: fpList(args), Goid: goid(), Depth: d, ResFP: fpList(results)})
 		m.depth++
